@@ -568,6 +568,9 @@ class Angle(object):
 
         if self._deg < 0:
             self._deg = 360.0 - abs(self._deg)
+            if self._deg >= 360.0:
+                # A tiny negative value is rounded up to 360.0
+                self._deg = 0.0
         return self
 
     def __eq__(self, b):
